@@ -245,12 +245,34 @@ Proof.
   destruct l; [now destruct b | apply IH].
 Qed.
 
+(* the offset mem.File.Readdir resumes from: the handle's count, but no further than the end of the listing
+   (entries may have been removed since the previous call); what is left to serve is the same either way *)
+Definition clamp_rdc (s : mst) (nd : node) (h : hnd) : Z :=
+  if zlen (dir_files s nd) <? hrdc h then zlen (dir_files s nd) else hrdc h.
+
+Lemma clamp_rdc_bounds s nd h : 0 <= hrdc h -> 0 <= clamp_rdc s nd h <= hrdc h.
+Proof.
+  intros H. unfold clamp_rdc, zlen.
+  destruct (Z.of_nat (length (dir_files s nd)) <? hrdc h) eqn:E; [apply Z.ltb_lt in E|]; lia.
+Qed.
+
+Lemma clamp_rdc_within s nd h : hrdc h <= zlen (dir_files s nd) -> clamp_rdc s nd h = hrdc h.
+Proof. intros H. unfold clamp_rdc. now replace (_ <? _) with false by (symmetry; apply Z.ltb_ge; lia). Qed.
+
+Lemma skipn_clamp_rdc {A} s nd h (l : list A) : length l = length (dir_files s nd) ->
+  skipn (Z.to_nat (clamp_rdc s nd h)) l = skipn (Z.to_nat (hrdc h)) l.
+Proof.
+  intros Hl. unfold clamp_rdc, zlen.
+  destruct (Z.of_nat (length (dir_files s nd)) <? hrdc h) eqn:E; [|reflexivity].
+  apply Z.ltb_lt in E. rewrite Nat2Z.id, <- Hl, skipn_all. symmetry. apply skipn_all2. lia.
+Qed.
+
 (* one Readdir(n) on handle i of a directory: closed form of the step *)
 Lemma m_step_readdir s i h nd n :
   nth_error (mhandles s) i = Some h -> get_node s (href h) = Some nd -> ndir nd = true -> 0 <= hrdc h ->
   let rest := skipn (Z.to_nat (hrdc h)) (dir_infos s nd) in
   let k := if 0 <? n then Nat.min (Z.to_nat n) (length rest) else length rest in
-  let h' := set_rdc h (hrdc h + Z.of_nat k) in
+  let h' := set_rdc h (clamp_rdc s nd h + Z.of_nat k) in
   m_step s (HReaddir i n) =
     (mkM (mdata s) (mheap s) (list_set i h' (mhandles s)) (mclock s + 1),
      page_res (if 0 <? n then (firstn (Z.to_nat n) rest, match rest with [] => true | _ => false end)
@@ -258,9 +280,10 @@ Lemma m_step_readdir s i h nd n :
 Proof.
   intros Hh Hn Hd Hc rest k h'.
   unfold m_step, m_step_raw, m_hop. rewrite Hh, Hn. unfold m_readdir. rewrite Hn, Hd. cbn [negb].
-  set (files := skipn (Z.to_nat (hrdc h)) (dir_files s nd)).
+  fold (clamp_rdc s nd h).
+  set (files := skipn (Z.to_nat (clamp_rdc s nd h)) (dir_files s nd)).
   assert (Hrest : rest = map (node_info s) files).
-  { unfold rest, dir_infos, files. now rewrite skipn_map. }
+  { unfold rest, dir_infos, files. now rewrite skipn_map, skipn_clamp_rdc. }
   assert (Hlen : length rest = length files) by (rewrite Hrest; apply map_length).
   fold (node_info s).
   destruct (0 <? n) eqn:En.
@@ -302,16 +325,18 @@ Proof.
   rewrite (m_step_readdir s i h nd n Hh Hn Hd Hc).
   set (rest := skipn (Z.to_nat (hrdc h)) (dir_infos s nd)).
   set (k := if 0 <? n then Nat.min (Z.to_nat n) (length rest) else length rest).
-  set (h' := set_rdc h (hrdc h + Z.of_nat k)).
+  set (h' := set_rdc h (clamp_rdc s nd h + Z.of_nat k)).
   set (s' := mkM (mdata s) (mheap s) (list_set i h' (mhandles s)) (mclock s + 1)).
   assert (Hh' : nth_error (mhandles s') i = Some h') by (apply (nth_error_list_set _ _ h); exact Hh).
   assert (Hn' : get_node s' (href h') = Some nd) by exact Hn.
+  pose proof (clamp_rdc_bounds s nd h Hc) as Hb.
   assert (Hc' : 0 <= hrdc h') by (cbn; lia).
   specialize (IH s' i h' nd Hh' Hn' Hd Hc').
   destruct (run_steps m_step s' (map (HReaddir i) ns)) as [s2 xs]. cbn [snd] in *.
   rewrite IH. rewrite (dir_infos_heap s s' nd eq_refl).
   assert (Hskip : skipn (Z.to_nat (hrdc h')) (dir_infos s nd) = skipn k rest).
-  { cbn [hrdc h' set_rdc]. rewrite Z2Nat.inj_add, Nat2Z.id by lia. apply skipn_skipn_add. }
+  { cbn [hrdc h' set_rdc]. rewrite Z2Nat.inj_add, Nat2Z.id by lia. rewrite skipn_skipn_add. unfold rest.
+    rewrite skipn_clamp_rdc; [reflexivity | apply map_length]. }
   rewrite Hskip. unfold k.
   destruct (0 <? n); cbn [map]; f_equal.
   - now rewrite skipn_min_length.
